@@ -93,6 +93,16 @@ type CallToolResult struct {
 }
 
 // ResultMeta represents result metadata
+// MarshalJSON encodes a nil Content as an empty array: "content" is an array in the MCP schema.
+func (r CallToolResult) MarshalJSON() ([]byte, error) {
+	type plain CallToolResult
+	p := plain(r)
+	if p.Content == nil {
+		p.Content = []Content{}
+	}
+	return json.Marshal(p)
+}
+
 type ResultMeta struct {
 	AdditionalData map[string]interface{} `json:"-"`
 }
